@@ -116,7 +116,7 @@ class Ctx:
         wall = time.time() - self.t0
         # vanished anchors
         for r in self.rules.values():
-            if r.instances < r.min_instances:
+            if r.instances < r.min_instances and not getattr(self, "replay", None):
                 raise AnalysisError(
                     f"rule {r.name}: only {r.instances} instances examined, confirmed minimum is "
                     f"{r.min_instances} (an anchor vanished or the extractor no longer matches)"
@@ -182,7 +182,7 @@ class Ctx:
         }
         if self.notes:
             evidence["coverage"]["notes"] = self.notes
-        if not os.environ.get("VERIF_NO_EVIDENCE") and self.src == "/repo/src" or os.environ.get("VERIF_FORCE_EVIDENCE"):
+        if (not os.environ.get("VERIF_NO_EVIDENCE") and self.src == "/repo/src" and not getattr(self, "replay", None)) or os.environ.get("VERIF_FORCE_EVIDENCE"):
             EVIDENCE.mkdir(exist_ok=True)
             (EVIDENCE / f"{self.prop}.json").write_text(json.dumps(evidence, indent=1, default=str))
         print(
